@@ -11,7 +11,7 @@
      6. encode_parses, encode_bytes, encode_succeeds *)
 From Coq Require Import ZArith.
 From RV Require Import Base.Prelude Base.Cursor Name.NameModel Name.NameSpec
-  Wire.WireTypes Wire.WireModel Wire.WireGrammar.
+  Wire.WireTypes Wire.WireModel Wire.WireModelFacts Wire.WireGrammar.
 Open Scope N_scope.
 
 (* lia with division / modulo by constants *)
@@ -306,9 +306,10 @@ Qed.
 (* 3. the buffer invariant                                             *)
 (* ------------------------------------------------------------------ *)
 
+(* [wb_octets b = rev (wb_rev b)] is [wb_octets_rev] of Wire/WireModelFacts.v *)
 Lemma octets_write_octets os b : wb_octets (write_octets os b) = wb_octets b ++ os.
 Proof.
-  unfold wb_octets, write_octets; cbn [wb_rev].
+  rewrite !wb_octets_rev. unfold write_octets; cbn [wb_rev].
   now rewrite rev_append_rev, rev_app_distr, rev_involutive.
 Qed.
 Lemma len_write_octets os b : wb_len (write_octets os b) = wb_len b + llen os.
@@ -762,7 +763,7 @@ Lemma skipn_app_exact' {A} (a b : list A) k : k = length a -> skipn k (a ++ b) =
 Proof. intros ->. apply skipn_app_exact. Qed.
 
 Lemma wb_len_rev b : wb_ok b -> wb_len b = llen (wb_rev b).
-Proof. intros H. rewrite (ok_len b H). unfold wb_octets, llen. now rewrite rev_length. Qed.
+Proof. intros H. rewrite (ok_len b H), wb_octets_rev. unfold llen. now rewrite rev_length. Qed.
 
 (* patching the placeholder afterwards = having written the final value in the first place *)
 Lemma patch_differ a b tail x1 x0 v :
@@ -988,3 +989,448 @@ Proof. intros Hwf E. destruct (encode_run m bs Hwf E) as (b & _ & _ & P). exact 
 (* the encoder emits octets *)
 Theorem encode_bytes m bs : wf_message m -> encode m = Ok bs -> Forall (fun b => b < 256) bs.
 Proof. intros Hwf E. destruct (encode_run m bs Hwf E) as (b & -> & ok & _). apply (ok_bytes b ok). Qed.
+
+(* ------------------------------------------------------------------ *)
+(* 7. DESIGN C04 T1 in one place                                       *)
+(* ------------------------------------------------------------------ *)
+
+(* what [wb_ok] says about every table entry *)
+Theorem enc_table_inv_entry b n p : wb_ok b -> In (n, p) (wb_ptrs b) ->
+  exists off, p = 49152 + off /\ off < 16384 /\ off < wb_len b /\ off + nlen n <= wb_len b
+    /\ wf_name n /\ is_root n = false
+    /\ PlainAt (wb_octets b) off (labels n)
+    /\ NameAt (wb_octets b) off off (labels n) (off + nlen n)
+    /\ NameIs (wb_octets b) off n (off + nlen n).
+Proof.
+  intros Hok Hin.
+  pose proof (ok_ptrs b Hok) as Hp. rewrite Forall_forall in Hp.
+  destruct (Hp _ Hin) as (off & H1 & H2 & H3 & H4 & H5). cbn [fst snd] in *.
+  pose proof (PlainAt_end _ _ _ H5) as He.
+  destruct (wf_name_front n H3) as (front & E & Hf & Hn & Hle).
+  assert (1 <= sum_lens (labels n)).
+  { rewrite E. clear. induction front; cbn [app]; [rewrite sum_lens_root; lia | rewrite sum_lens_cons; lia]. }
+  exists off. rewrite (ok_len b Hok). splits; auto; try lia.
+  - now apply PlainAt_NameAt.
+  - now apply PlainAt_NameIs.
+Qed.
+
+(* the table has one entry per name, and lookup finds it *)
+Theorem enc_table_inv_keys b : wb_ok b -> NoDup (map fst (wb_ptrs b)).
+Proof. apply ok_keys. Qed.
+
+(* the invariant holds initially and is preserved by every encoder step *)
+Theorem enc_table_inv :
+  wb_ok wb_empty
+  /\ (forall os b, bytes os -> wb_ok b -> wb_ok (write_octets os b))
+  /\ (forall v b, wb_ok b -> wb_ok (write_u16 v b))
+  /\ (forall v b, wb_ok b -> wb_ok (write_u32 v b))
+  /\ (forall n c b, wf_name n -> wb_ok b -> wb_ok (encode_name n c b))
+  /\ (forall ty d b, wf_rdata ty d -> wb_ok b -> wb_ok (encode_rdata d b))
+  /\ (forall q b, wf_question q -> wb_ok b -> wb_ok (encode_question q b))
+  /\ (forall h, wf_header h -> wb_ok (encode_header h wb_empty))
+  /\ (forall r b b', wf_rr r -> wb_ok b -> encode_rr r b = Ok b' -> wb_ok b')
+  /\ (forall rs b b', Forall wf_rr rs -> wb_ok b -> encode_rrs rs b = Ok b' -> wb_ok b').
+Proof.
+  splits.
+  - exact wb_ok_empty.
+  - intros. now apply wb_ok_write_octets.
+  - intros. now apply write_u16_ok.
+  - intros. now apply write_u32_ok.
+  - intros. now apply encode_name_ok.
+  - intros ty d b H1 H2. eapply encode_rdata_ok; eauto.
+  - intros. now apply encode_question_ok.
+  - intros. now apply encode_header_ok.
+  - intros r b b' H1 H2 H3. eapply encode_rr_ok; eauto.
+  - intros rs b b' H1 H2 H3. eapply encode_rrs_ok; eauto.
+Qed.
+
+(* DESIGN C04 T1, last clause: every pointer the encoder emits addresses the start of an
+   identical name written earlier (in full), strictly before the pointer itself *)
+Theorem encode_name_pointer b n p : wb_ok b -> alookup dname_eqb n (wb_ptrs b) = Some p ->
+  exists off,
+    wb_octets (encode_name n true b) = wb_octets b ++ [192 + off / 256; off mod 256]
+    /\ off < 16384 /\ off + nlen n <= wb_len b
+    /\ PlainAt (wb_octets b) off (labels n)
+    /\ NameIs (wb_octets b) off n (off + nlen n).
+Proof.
+  intros Hok L.
+  destruct (enc_table_inv_entry b n p Hok (alookup_some _ _ _ L))
+    as (off & -> & Ho & Hlt & He & Hwf & _ & Hp & _ & Hn).
+  exists off. splits; auto.
+  unfold encode_name. rewrite L. unfold write_u16. rewrite octets_write_octets.
+  unfold u16_bytes, u16_hi, u16_lo. do 2 f_equal; [dlia | f_equal; dlia].
+Qed.
+
+(* DESIGN C04 T1/T2 for one name (the statement asked for as encode_name_parses) *)
+Theorem encode_name_parses n c b : wb_ok b -> wf_name n ->
+  wb_ok (encode_name n c b)
+  /\ NameIs (wb_octets (encode_name n c b)) (wb_len b) n (wb_len (encode_name n c b)).
+Proof. intros H1 H2. destruct (encode_name_ok n c b H1 H2) as (? & _ & ? & _). auto. Qed.
+
+Theorem encode_question_parses q b : wb_ok b -> wf_question q ->
+  wb_ok (encode_question q b)
+  /\ QuestionAt (wb_octets (encode_question q b)) (wb_len b) q (wb_len (encode_question q b)).
+Proof. intros H1 H2. destruct (encode_question_ok q b H1 H2) as (? & _ & ?). auto. Qed.
+
+Theorem encode_rr_parses r b b' : wb_ok b -> wf_rr r -> encode_rr r b = Ok b' ->
+  wb_ok b' /\ RRAt (wb_octets b') (wb_len b) r (wb_len b').
+Proof. intros H1 H2 H3. destruct (encode_rr_ok r b b' H1 H2 H3) as (? & _ & ?). auto. Qed.
+
+(* ------------------------------------------------------------------ *)
+(* 8. when the encoder succeeds                                        *)
+(* ------------------------------------------------------------------ *)
+
+(* the only ways to fail: a section with 65536 or more entries, or opaque RDATA of 65536 or
+   more octets (RDATA made of names and fixed fields is at most 530 octets) *)
+Definition rr_fits (r : rr) : Prop :=
+  match rr_data r with RD_Octets os => llen os < 65536 | _ => True end.
+Definition encodable (m : message) : Prop :=
+  llen (m_questions m) < 65536 /\ llen (m_answers m) < 65536
+  /\ llen (m_authority m) < 65536 /\ llen (m_additional m) < 65536
+  /\ Forall rr_fits (m_answers m) /\ Forall rr_fits (m_authority m) /\ Forall rr_fits (m_additional m).
+
+Lemma wf_name_nlen n : wf_name n -> nlen n <= 255.
+Proof. intros H. destruct (wf_name_front n H) as (? & ? & ? & ? & ?). auto. Qed.
+
+Lemma rdata_len_bound r : wf_rr r -> rr_fits r -> rdata_len (rr_data r) < 65536.
+Proof.
+  intros (_ & _ & _ & _ & _ & Hd). unfold rr_fits.
+  destruct (rr_data r); cbn [rdata_len]; intros Hfit; auto;
+    repeat match goal with
+           | H : _ /\ _ |- _ => destruct H
+           | H : wf_name _ |- _ => apply wf_name_nlen in H
+           end; try lia.
+  unfold llen in *. lia.
+Qed.
+
+Lemma encode_rr_succeeds r b : wb_ok b -> wf_rr r -> rr_fits r -> exists b', encode_rr r b = Ok b'.
+Proof.
+  intros Hok Hwf Hfit. rewrite (encode_rr_unpatched r b Hok Hwf).
+  rewrite (proj2 (N.ltb_lt _ _) (rdata_len_bound r Hwf Hfit)). eauto.
+Qed.
+
+Lemma encode_rrs_succeeds rs : forall b, wb_ok b -> Forall wf_rr rs -> Forall rr_fits rs ->
+  exists b', encode_rrs rs b = Ok b'.
+Proof.
+  induction rs as [|r rs IH]; intros b Hok Hwf Hfit; cbn [encode_rrs]; [eauto|].
+  inversion Hwf; inversion Hfit; subst.
+  destruct (encode_rr_succeeds r b) as (b1 & E1); auto. rewrite E1. cbn [bind].
+  apply IH; auto. eapply encode_rr_ok; eauto.
+Qed.
+
+Theorem encode_succeeds m : wf_message m -> encodable m -> exists bs, encode m = Ok bs.
+Proof.
+  intros (Hh & Hq & Han & Hns & Har) (C1 & C2 & C3 & C4 & F1 & F2 & F3).
+  unfold encode, usize_to_u16.
+  rewrite (proj2 (N.ltb_lt _ _) C1), (proj2 (N.ltb_lt _ _) C2),
+          (proj2 (N.ltb_lt _ _) C3), (proj2 (N.ltb_lt _ _) C4). cbn [bind].
+  destruct (encode_header_ok (m_header m) Hh) as (okh & _).
+  set (b0 := write_u16 _ (write_u16 _ (write_u16 _ (write_u16 _ _)))).
+  assert (ok0 : wb_ok b0) by (apply write_u16_ok, write_u16_ok, write_u16_ok, write_u16_ok, okh).
+  destruct (encode_questions_ok (m_questions m) b0 ok0 Hq) as (ok1 & _).
+  set (b1 := fold_left _ _ b0) in *.
+  destruct (encode_rrs_succeeds _ b1 ok1 Han F1) as (b2 & E2). rewrite E2. cbn [bind].
+  destruct (encode_rrs_ok _ _ _ ok1 Han E2) as (ok2 & _).
+  destruct (encode_rrs_succeeds _ b2 ok2 Hns F2) as (b3 & E3). rewrite E3. cbn [bind].
+  destruct (encode_rrs_ok _ _ _ ok2 Hns E3) as (ok3 & _).
+  destruct (encode_rrs_succeeds _ b3 ok3 Har F3) as (b4 & E4). rewrite E4. cbn [bind].
+  eauto.
+Qed.
+
+(* anything the grammar parses out of a string of octets is encodable: the counts and every
+   RDLENGTH were read from 16-bit fields *)
+Lemma u16At_lt bs i v : bytes bs -> u16At bs i v -> v < 65536.
+Proof.
+  intros Hb (a & b & Ha & Hb' & ->). unfold bytes in Hb. rewrite Forall_forall in Hb.
+  apply nth_error_In, Hb in Ha. apply nth_error_In, Hb in Hb'. cbn beta in *. lia.
+Qed.
+
+Lemma RRAt_fits bs pos r nx : bytes bs -> RRAt bs pos r nx -> rr_fits r.
+Proof.
+  intros Hb (p1 & len & _ & _ & _ & _ & Hlen & Hd & _). unfold rr_fits.
+  apply (u16At_lt _ _ _ Hb) in Hlen.
+  destruct Hd; auto.
+  match goal with H : octetsAt _ _ _ _ |- _ => apply sliceN_len in H as [<- _] end. exact Hlen.
+Qed.
+
+Lemma SeqRR_fits bs rs : forall pos nx, bytes bs -> SeqAt (RRAt bs) pos rs nx -> Forall rr_fits rs.
+Proof.
+  induction rs as [|r rs IH]; intros pos nx Hb; cbn [SeqAt]; [constructor|].
+  intros (mid & H1 & H2). constructor; eauto using RRAt_fits.
+Qed.
+
+Theorem parses_encodable bs m : bytes bs -> Parses bs m -> encodable m.
+Proof.
+  intros Hb (_ & U1 & U2 & U3 & U4 & p1 & p2 & p3 & p4 & _ & S2 & S3 & S4).
+  unfold encodable. splits; eauto using u16At_lt, SeqRR_fits.
+Qed.
+
+(* DESIGN C04 T3 against the grammar: whatever parses (as a well-formed message) can be
+   re-encoded, and the re-encoding parses to the same message.  No extra hypothesis is needed:
+   names that were compressed inside RDATA are written out in full by the encoder, but RDATA
+   that contains names is at most 530 octets long, and opaque RDATA is re-emitted octet for
+   octet, so RDLENGTH cannot overflow. *)
+Theorem reencode_parses bs m : bytes bs -> Parses bs m -> wf_message m ->
+  exists bs', encode m = Ok bs' /\ Parses bs' m /\ bytes bs'.
+Proof.
+  intros Hb HP Hwf.
+  destruct (encode_succeeds m Hwf (parses_encodable bs m Hb HP)) as (bs' & E).
+  exists bs'. splits; auto; [eapply encode_parses | eapply encode_bytes]; eauto.
+Qed.
+
+(* the encoder succeeds exactly on the encodable messages *)
+Theorem encode_ok_iff m : wf_message m -> ((exists bs, encode m = Ok bs) <-> encodable m).
+Proof.
+  intros Hwf. split.
+  - intros (bs & E). eapply parses_encodable; [eapply encode_bytes | eapply encode_parses]; eauto.
+  - now apply encode_succeeds.
+Qed.
+
+(* ---- patch_u16 read directly (not needed above, where the patch is eliminated): it
+   replaces the two octets at [p] and nothing else ---- *)
+Lemma skipn_add {A} a c : forall l : list A, skipn (a + c) l = skipn c (skipn a l).
+Proof.
+  induction a as [|a IH]; intros l; [reflexivity|].
+  destruct l; cbn [Nat.add skipn]; [now rewrite skipn_nil | apply IH].
+Qed.
+
+Lemma octets_patch_u16 b p v : wb_ok b -> p + 2 <= wb_len b ->
+  exists A x y B, wb_octets b = A ++ [x; y] ++ B /\ llen A = p
+                  /\ wb_octets (patch_u16 p v b) = A ++ [u16_hi v; u16_lo v] ++ B.
+Proof.
+  intros Hok Hp. pose proof (wb_len_rev b Hok) as Hl. unfold llen in Hl.
+  rewrite !wb_octets_rev. unfold patch_u16. cbn [wb_rev].
+  set (k := N.to_nat (wb_len b - p - 2)). set (r := wb_rev b) in *.
+  assert (Hs : length (skipn k r) = N.to_nat (p + 2)) by (rewrite skipn_length; lia).
+  destruct (skipn k r) as [|y [|x rest]] eqn:E; cbn [length] in Hs; try lia.
+  assert (Er : skipn (k + 2) r = rest).
+  { rewrite skipn_add, E. reflexivity. }
+  exists (rev rest), x, y, (rev (firstn k r)). splits.
+  - rewrite <- (firstn_skipn k r) at 1. rewrite E, rev_app_distr. cbn [rev]. norm_app.
+  - unfold llen. rewrite rev_length. lia.
+  - rewrite Er, rev_app_distr. cbn [rev]. norm_app.
+Qed.
+
+Lemma patch_u16_nth b p v i : wb_ok b -> p + 2 <= wb_len b -> i < p \/ p + 2 <= i ->
+  nthN (wb_octets (patch_u16 p v b)) i = nthN (wb_octets b) i.
+Proof.
+  intros Hok Hp Hi. destruct (octets_patch_u16 b p v Hok Hp) as (A & x & y & B & -> & <- & ->).
+  unfold nthN, llen in *. destruct Hi as [Hi|Hi].
+  - rewrite !nth_error_app1 by lia. reflexivity.
+  - rewrite !nth_error_app2 by lia.
+    rewrite !nth_error_app2 by (cbn [length]; lia). reflexivity.
+Qed.
+
+Lemma patch_u16_written b p v : wb_ok b -> p + 2 <= wb_len b -> v < 65536 ->
+  u16At (wb_octets (patch_u16 p v b)) p v.
+Proof.
+  intros Hok Hp Hv. destruct (octets_patch_u16 b p v Hok Hp) as (A & x & y & B & _ & <- & ->).
+  exists (u16_hi v), (u16_lo v). cbn [app]. splits.
+  - apply nthN_app_mid.
+  - unfold at_. rewrite nthN_app_r. reflexivity.
+  - now apply u16_bytes_val.
+Qed.
+
+(* ------------------------------------------------------------------ *)
+(* 9. a decision procedure for wf_message (for closed examples)        *)
+(* ------------------------------------------------------------------ *)
+
+Definition wf_label_b (l : label) : bool :=
+  (llen l <=? 63) && forallb (fun b => (b <? 256) && negb (is_upper b)) l.
+Definition wf_name_b (n : dname) : bool :=
+  match rev (labels n) with
+  | [] :: rfront =>
+    forallb (fun l => negb (is_nil l) && wf_label_b l) rfront
+    && (sum_lens (labels n) <=? 255) && (nlen n =? sum_lens (labels n))
+  | _ => false
+  end.
+Definition u16_b (x : N) : bool := x <? 65536.
+Definition u32_b (x : N) : bool := x <? 4294967296.
+Definition wf_rdata_b (ty : N) (d : rdata) : bool :=
+  shape_eqb (shape_of_rdata d) (shape_of_type ty) &&
+  match d with
+  | RD_A a => u32_b a
+  | RD_Name n => wf_name_b n
+  | RD_SOA m r a b c d e => wf_name_b m && wf_name_b r && u32_b a && u32_b b && u32_b c && u32_b d && u32_b e
+  | RD_Octets os => forallb (fun x => x <? 256) os
+  | RD_MINFO r e => wf_name_b r && wf_name_b e
+  | RD_MX p e => u16_b p && wf_name_b e
+  | RD_AAAA segs => Nat.eqb (length segs) 8 && forallb u16_b segs
+  | RD_SRV p w o t => u16_b p && u16_b w && u16_b o && wf_name_b t
+  end.
+Definition wf_rr_b (r : rr) : bool :=
+  wf_name_b (rr_name r) && u16_b (rr_type r) && u16_b (rr_class r) && u32_b (rr_ttl r)
+  && wf_rdata_b (rr_type r) (rr_data r).
+Definition wf_question_b (q : question) : bool :=
+  wf_name_b (q_name q) && u16_b (q_type q) && u16_b (q_class q).
+Definition wf_header_b (h : header) : bool := u16_b (h_id h) && (h_opcode h <? 16) && (h_rcode h <? 16).
+Definition wf_message_b (m : message) : bool :=
+  wf_header_b (m_header m) && forallb wf_question_b (m_questions m) && forallb wf_rr_b (m_answers m)
+  && forallb wf_rr_b (m_authority m) && forallb wf_rr_b (m_additional m).
+
+Ltac bsplit H := repeat (let H' := fresh H in apply andb_true_iff in H as [H H']).
+
+Lemma wf_label_b_sound l : wf_label_b l = true -> wf_label l.
+Proof.
+  unfold wf_label_b, wf_label. intros H. bsplit H. split; [now apply N.leb_le|].
+  rewrite forallb_forall in H0. apply Forall_forall. intros x Hx. apply H0 in Hx.
+  bsplit Hx. split; [now apply N.ltb_lt | now apply negb_true_iff].
+Qed.
+
+Lemma wf_name_b_sound n : wf_name_b n = true -> wf_name n.
+Proof.
+  unfold wf_name_b, wf_name, wf_labels. intros H.
+  destruct (rev (labels n)) as [|[|] rfront] eqn:E; try discriminate.
+  bsplit H. apply N.leb_le in H1. apply N.eqb_eq in H0.
+  assert (El : labels n = rev rfront ++ [[]]).
+  { rewrite <- (rev_involutive (labels n)), E. reflexivity. }
+  split; auto. exists (rev rfront). splits; auto.
+  apply Forall_forall. intros l Hl. apply in_rev in Hl.
+  rewrite forallb_forall in H. apply H in Hl. bsplit Hl. split.
+  - destruct l; [discriminate | congruence].
+  - now apply wf_label_b_sound.
+Qed.
+
+Lemma shape_eqb_eq a b : shape_eqb a b = true -> a = b.
+Proof. destruct a, b; cbn; congruence. Qed.
+
+Lemma wf_rdata_b_sound ty d : wf_rdata_b ty d = true -> wf_rdata ty d.
+Proof.
+  unfold wf_rdata_b, wf_rdata, u16_b, u32_b, u16, u32. intros H. bsplit H.
+  split; [now apply shape_eqb_eq|].
+  destruct d; bsplit H0;
+    repeat match goal with
+           | H : wf_name_b _ = true |- _ => apply wf_name_b_sound in H
+           | H : (_ <? _) = true |- _ => apply N.ltb_lt in H
+           end; splits; auto.
+  - apply Forall_forall. intros x Hx. rewrite forallb_forall in H0. apply H0 in Hx. now apply N.ltb_lt.
+  - now apply Nat.eqb_eq.
+  - apply Forall_forall. intros x Hx. rewrite forallb_forall in H1. apply H1 in Hx. now apply N.ltb_lt.
+Qed.
+
+Lemma wf_rr_b_sound r : wf_rr_b r = true -> wf_rr r.
+Proof.
+  unfold wf_rr_b, wf_rr, u16_b, u32_b, u16, u32. intros H. bsplit H.
+  splits; auto using wf_name_b_sound, wf_rdata_b_sound; now apply N.ltb_lt.
+Qed.
+Lemma wf_question_b_sound q : wf_question_b q = true -> wf_question q.
+Proof.
+  unfold wf_question_b, wf_question, u16_b, u16. intros H. bsplit H.
+  splits; auto using wf_name_b_sound; now apply N.ltb_lt.
+Qed.
+Lemma forallb_Forall {A} (f : A -> bool) (P : A -> Prop) l :
+  (forall x, f x = true -> P x) -> forallb f l = true -> Forall P l.
+Proof.
+  intros Hf H. rewrite forallb_forall in H. apply Forall_forall. auto.
+Qed.
+Theorem wf_message_b_sound m : wf_message_b m = true -> wf_message m.
+Proof.
+  unfold wf_message_b, wf_message, wf_header_b, wf_header, u16_b, u16. intros H. bsplit H.
+  splits; try (now apply N.ltb_lt);
+    eauto using forallb_Forall, wf_question_b_sound, wf_rr_b_sound.
+Qed.
+
+(* ------------------------------------------------------------------ *)
+(* 10. examples                                                        *)
+(* ------------------------------------------------------------------ *)
+
+Definition mkname (front : list label) : dname :=
+  {| labels := front ++ [[]]; nlen := sum_lens (front ++ [[]]) |}.
+
+Definition L_www : label := [119; 119; 119].
+Definition L_example : label := [101; 120; 97; 109; 112; 108; 101].
+Definition L_com : label := [99; 111; 109].
+Definition L_ns : label := [110; 115].
+Definition L_host : label := [104; 111; 115; 116].
+Definition N_www := mkname [L_www; L_example; L_com].
+Definition N_host := mkname [L_host; L_example; L_com].
+Definition N_example := mkname [L_example; L_com].
+Definition N_ns := mkname [L_ns; L_example; L_com].
+(* a name of maximal length: 3 labels of 63 octets and one of 61 *)
+Definition N_max := mkname [repeat 97 63; repeat 98 63; repeat 99 63; repeat 100 61].
+
+Definition mkrr n ty d := {| rr_name := n; rr_type := ty; rr_class := RC_IN; rr_ttl := 300; rr_data := d |}.
+
+(* every record shape, names repeated as owners (compressed) and inside RDATA (not compressed,
+   but memoised), a maximal name, empty RDATA *)
+Definition ex_msg : message :=
+  {| m_header := {| h_id := 4660; h_qr := true; h_opcode := 0; h_aa := true; h_tc := false;
+                    h_rd := true; h_ra := true; h_rcode := 3 |};
+     m_questions := [ {| q_name := N_www; q_type := 255; q_class := 1 |} ];
+     m_answers := [ mkrr N_www RT_CNAME (RD_Name N_host);
+                    mkrr N_host RT_A (RD_A 3232235777);
+                    mkrr N_host RT_AAAA (RD_AAAA [8193; 3512; 0; 0; 0; 0; 0; 1]);
+                    mkrr N_host RT_TXT (RD_Octets []);
+                    mkrr N_max 65280 (RD_Octets [1; 2; 255]) ];
+     m_authority := [ mkrr N_example RT_NS (RD_Name N_ns);
+                      mkrr N_example RT_SOA (RD_SOA N_ns N_host 1 2 3 4 4294967295);
+                      mkrr N_max RT_MINFO (RD_MINFO N_max N_ns) ];
+     m_additional := [ mkrr N_ns RT_A (RD_A 167772161);
+                       mkrr N_example RT_MX (RD_MX 10 N_host);
+                       mkrr N_www RT_SRV (RD_SRV 1 2 443 N_host) ] |}.
+
+Example ex_msg_wf : wf_message ex_msg.
+Proof. apply wf_message_b_sound. vm_compute. reflexivity. Qed.
+
+(* it encodes, to 859 octets; the model's own decoder returns the message *)
+Example ex_msg_roundtrip :
+  exists bs, encode ex_msg = Ok bs /\ llen bs = 859 /\ decode bs = Ok ex_msg.
+Proof. eexists. split; [vm_compute; reflexivity|]. split; vm_compute; reflexivity. Qed.
+
+(* a small message byte for byte: the question name is written once, the owner of the answer
+   is the pointer 0xC00C to it, the CNAME target is written in full (RDATA is never
+   compressed) and the owner of the second answer is the pointer 0xC02D to that target *)
+Example ex_small_bytes :
+  encode {| m_header := {| h_id := 258; h_qr := true; h_opcode := 0; h_aa := false; h_tc := false;
+                           h_rd := true; h_ra := true; h_rcode := 0 |};
+            m_questions := [ {| q_name := N_www; q_type := 1; q_class := 1 |} ];
+            m_answers := [ mkrr N_www RT_CNAME (RD_Name N_host); mkrr N_host RT_A (RD_A 16909060) ];
+            m_authority := []; m_additional := [] |}
+  = Ok ([1; 2; 129; 128; 0; 1; 0; 2; 0; 0; 0; 0]
+        ++ [3; 119; 119; 119; 7; 101; 120; 97; 109; 112; 108; 101; 3; 99; 111; 109; 0] ++ [0; 1; 0; 1]
+        ++ [192; 12] ++ [0; 5; 0; 1; 0; 0; 1; 44] ++ [0; 18]
+        ++ [4; 104; 111; 115; 116; 7; 101; 120; 97; 109; 112; 108; 101; 3; 99; 111; 109; 0]
+        ++ [192; 45] ++ [0; 1; 0; 1; 0; 0; 1; 44] ++ [0; 4] ++ [1; 2; 3; 4]).
+Proof. vm_compute. reflexivity. Qed.
+
+(* beyond the range of compression pointers: 17000 octets of TXT, then a new name three
+   times.  Its first occurrence is at offset 17029 >= 16384, so it is never memoised and is
+   written in full each time (3 * 17 octets); [N_www], first written at offset 12, is still
+   compressed. *)
+Definition ex_big : message :=
+  {| m_header := {| h_id := 1; h_qr := true; h_opcode := 0; h_aa := false; h_tc := false;
+                    h_rd := false; h_ra := false; h_rcode := 0 |};
+     m_questions := [ {| q_name := N_www; q_type := 16; q_class := 1 |} ];
+     m_answers := [ mkrr N_www RT_TXT (RD_Octets (repeat 7 (N.to_nat 17000)));
+                    mkrr N_ns RT_A (RD_A 1);
+                    mkrr N_ns RT_A (RD_A 2);
+                    mkrr N_www RT_NS (RD_Name N_ns) ];
+     m_authority := []; m_additional := [] |}.
+
+Example ex_big_wf : wf_message ex_big.
+Proof. apply wf_message_b_sound. vm_cast_no_check (@eq_refl bool true). Qed.
+
+Lemma ok_match (r : res serr (list byte)) (P : list byte -> Prop) :
+  match r with Ok bs => P bs | _ => False end -> exists bs, r = Ok bs /\ P bs.
+Proof. destruct r; [eauto | contradiction..]. Qed.
+
+(* (one evaluation by the kernel's virtual machine, at Qed) *)
+Example ex_big_roundtrip :
+  exists bs, encode ex_big = Ok bs /\ decode bs = Ok ex_big
+    /\ llen bs = 12 + (17 + 4) + (2 + 10 + 17000) + 2 * (16 + 10 + 4) + (2 + 10 + 16).
+Proof.
+  apply ok_match.
+  vm_cast_no_check (conj (@eq_refl _ (@Ok werr message ex_big)) (@eq_refl N 17133)).
+Qed.
+
+(* a record the encoder refuses: 65536 octets of opaque RDATA (so [encode_parses] and
+   [roundtrip] keep the hypothesis that encoding succeeded) *)
+Example ex_too_long :
+  let m := {| m_header := m_header ex_big; m_questions := [];
+              m_answers := [ mkrr N_www RT_TXT (RD_Octets (repeat 7 (N.to_nat 65536))) ];
+              m_authority := []; m_additional := [] |} in
+  wf_message m /\ encode m = Err (CounterTooLarge 65536).
+Proof.
+  split; [apply wf_message_b_sound; vm_cast_no_check (@eq_refl bool true)|].
+  vm_cast_no_check (@eq_refl (res serr (list byte)) (Err (CounterTooLarge 65536))).
+Qed.
